@@ -722,19 +722,8 @@ func (x *Exec) compileCall(env *Env, e *SCall) Value {
 			env.fail("unchanged() needs a pre-state")
 		}
 		var except []modObj
-		for i := range e.Args {
-			a := argTV(i)
-			switch u := a.Ty.Underlying().(type) {
-			case *types.Slice:
-				except = append(except, modObj{key: x.ti.HeapKey(u.Elem()), ref: Sel("s-ref", a.T)})
-			case *types.Pointer:
-				except = append(except, modObj{key: x.ti.HeapKey(elemOfPointee(u.Elem())), ref: Sel("p-ref", a.T)})
-			case *types.Map:
-				dk, vk, lk := x.ti.MapKeys(u)
-				except = append(except, modObj{key: dk, ref: a.T}, modObj{key: vk, ref: a.T}, modObj{key: lk, ref: a.T})
-			default:
-				env.fail("unchanged(): argument %d is not a heap object", i)
-			}
+		for _, a := range e.Args {
+			except = append(except, x.modObjOf(env, a)...)
 		}
 		var conj []*Term
 		for _, key := range sortedHeapKeys(env.heap) {
@@ -745,7 +734,7 @@ func (x *Exec) compileCall(env *Env, e *SCall) Value {
 			}
 			x.counter++
 			r := Atom(fmt.Sprintf("r!u%d", x.counter), SInt)
-			cond := []*Term{Le(IntLit(0), r), Le(r, env.old.alloc)}
+			cond := []*Term{Lt(IntLit(0), r), Le(r, env.old.alloc)}
 			for _, m := range except {
 				if m.key == key {
 					cond = append(cond, m.excludes(r))
